@@ -1,4 +1,5 @@
 mod common;
+mod alloc;
 mod fes;
 mod rt;
 
@@ -14,6 +15,9 @@ fn main() {
         ("fes", "replay") => fes::replay(&args[2..]),
         ("fes", "record") => fes::record(&args[2..]),
         ("rt", "replay") => rt::replay(&args[2..]),
+        ("alloc", "replay") => alloc::replay(&args[2..]),
+        ("alloc", "record") => alloc::record(&args[2..]),
+        ("alloc", "sizes") => alloc::sizes(&args[2..]),
         _ => {
             eprintln!("unknown suite/mode");
             std::process::exit(3);
